@@ -66,12 +66,27 @@ pub struct Case { pub ty: Ty, pub start: Val, pub ops: Vec<Op> }
 
 // ---------------------------------------------------------------------------
 
+/// upper bound for the bit length of the integers inside a value and for its polynomial degree (used to keep byte-decoded
+/// matrix cases within the size range of the generated ones)
+pub fn val_size(v: &Val) -> (u32, usize) {
+    match v {
+        Val::Pow2(k, _, _) => (*k % 4096 + 1, 0),
+        Val::Big(_, s) => (4 * s.len() as u32, 0),
+        Val::Limit(..) => (200, 0),
+        Val::Frac(a, b) | Val::Pair(a, b) => { let (x, y) = (val_size(a), val_size(b)); (x.0.max(y.0), x.1.max(y.1)) }
+        Val::Mono(d, a) => { let x = val_size(a); (x.0, x.1.max(*d as usize)) }
+        Val::Poly(c) => c.iter().map(val_size).fold((0, c.len()), |a, b| (a.0.max(b.0), a.1.max(b.1))),
+        _ => (64, 0),
+    }
+}
+
 pub fn int_of(v: &Val, bits: Option<u32>) -> BigInt {
     match v {
         Val::Zero => bi(0), Val::One => bi(1), Val::MinusOne => bi(-1),
         Val::Small(x) => bi(*x),
         Val::Pow2(k, d, neg) => { let x = (BigInt::one() << (*k % 4096)) + bi(*d); if *neg { -x } else { x } }
-        Val::Big(neg, s) => { let x = parse_big(if s.is_empty() { "0" } else { s }); if *neg { -x } else { x } }
+        // generated strings are decimal digits; byte-decoded (fuzz) strings may contain anything: only the digits count
+        Val::Big(neg, s) => { let d: String = s.chars().filter(|c| c.is_ascii_digit()).collect(); let x = parse_big(if d.is_empty() { "0" } else { &d }); if *neg { -x } else { x } }
         Val::Limit(max, d) => match bits {
             Some(b) => if *max { (BigInt::one() << b) - 1 - bi(*d as i64) } else { -(BigInt::one() << b) + bi(*d as i64) },
             None => { let x = (BigInt::one() << 200u32) - bi(*d as i64); if *max { x } else { -x } }
